@@ -174,6 +174,47 @@ def check_C02(ctx):
 C08_HISTORIES = ["H1-upload", "H1z-upload-3-chunks", "H2-ac-overwrite", "H3-wrong-hash-cleanup", "H4-evict", "H5-backend-fetch"]
 
 
+def check_C06(ctx):
+    th = ctx.thorough()
+    g = ctx.bin(GRID)
+    jobs = []
+    shards = 4 if th else 2
+    for mode in ("zstd", "uncompressed"):
+        for be in ("0", "1"):
+            for sh in range(shards):
+                jobs.append(Job(g, "TestC06", name="C06:%s/backend%s#%d" % (mode, be, sh), timeout=1800,
+                                env={"VERIF_PARAM_MODE": mode, "VERIF_PARAM_BACKEND": be, "VERIF_SHARD": "%d/%d" % (sh, shards), "GOMAXPROCS": "4"}))
+    # E5: Spin model of the fail-fast join + replay of every trail against the implementation
+    import e5
+    w = os.path.join(ctx.work, "spin")
+    model = []
+    for n in ((2, 3, 4) if th else (2, 3)):
+        model.append(e5.verify(os.path.join(w, "v%d" % n), n, 1))
+    unfixed = e5.verify(os.path.join(w, "u2"), 2, 0)
+    trails = []
+    ntrails = 0
+    for n in ((2, 3) if th else (2,)):
+        for ff in (0, 1):
+            t, total = e5.trails(os.path.join(w, "t%d%d" % (n, ff)), n, ff, cap=4000)
+            trails += t
+            ntrails += total
+    tf = os.path.join(ctx.work, "trails.json")
+    json.dump(trails, open(tf, "w"))
+    jobs.append(Job(ctx.bin(DISK), "TestVfE5Replay", name="C06:E5-replay", timeout=1800, env={"VERIF_PARAM_TRAILS": tf}))
+    extra = {"e5_model": {"file": "models/findmissing.pml", "spin_runs": model, "trails_enumerated": ntrails, "trails_replayed": len(trails),
+                          "unfixed_variant_errors": unfixed["errors"],
+                          "note": "repaired-code model (FIXED=1) verified exhaustively by Spin: errors must be 0; the FIXED=0 variant must have errors (the model can express the defect)"}}
+    bad = [m for m in model if m["errors"] != 0]
+    if bad:
+        raise V.Broken("Spin finds a violation in the repaired model: %s" % bad)
+    if unfixed["errors"] == 0:
+        raise V.Broken("Spin finds no violation in the unrepaired model variant: the model cannot express the defect")
+    return dict(level="exploration", jobs=jobs, extra_cov=extra,
+                rule="every ActionResult shape of a bounded grammar (0-2 output files each digest-only/inline/empty-blob; output directory with Tree variants incl. children and a nil digest; stdout/stderr digest nil/set/empty) x every assignment of {present, absent, stored with another size} (or {present, absent, backend only} with a backend) to its <=5 (7 thorough) referenced blobs, x gRPC GetActionResult, HTTP GET and HEAD; 25 output files with each single one absent (across the batch of 20); recency after a hit; non-trivial = distinct (shape, assignment) cells",
+                assumptions=["AC entries are stored directly through the disk layer (UpdateActionResult does not check dependencies either)",
+                             "the backend is a scriptable cache.Proxy; the fail-fast join with a backend is additionally model-checked (E5) and its trails replayed"])
+
+
 def check_C10(ctx):
     th = ctx.thorough()
     g = ctx.bin(GRID)
@@ -274,7 +315,7 @@ def check_C13(ctx):
                              "a method unknown to the harness's read-only list is treated as mutating"])
 
 
-CHECKS = {"C01": check_C01, "C02": check_C02, "C08": check_C08, "C09": check_C09, "C10": check_C10, "C12": check_C12, "C13": check_C13, "C17": check_C17, "C03": check_C03, "C04": check_C04, "C05": check_C05, "C07": check_C07}
+CHECKS = {"C01": check_C01, "C02": check_C02, "C08": check_C08, "C09": check_C09, "C06": check_C06, "C10": check_C10, "C12": check_C12, "C13": check_C13, "C17": check_C17, "C03": check_C03, "C04": check_C04, "C05": check_C05, "C07": check_C07}
 
 # per-property manifest metadata
 META = {
@@ -308,6 +349,12 @@ META = {
         note="Retry-after-drain is required only when the item fits under the limit next to what is accounted after the drain (with limit close to max_size a full cache refuses large items permanently: admission precedes eviction by design).",
         technique="explicit-state BFS + preemption-bounded schedule DFS over the real code with the remover under scheduler control",
         design_ref="DESIGN.md 3 (C17)"),
+    "C06": dict(
+        category="exploration", engine="E4 grid + E5 spin",
+        text="Bounded-exhaustive grid through gRPC GetActionResult, HTTP GET and HEAD: every ActionResult shape of a small grammar (output files digest-only/inline/empty, output directory Trees with root/child files and nil digests, stdout/stderr digests) x every assignment of present / absent / other-size (or backend-only) to its referenced blobs (<=5 quick, <=7 thorough), 25 output files with each one absent, recency of referenced blobs after a hit. The join of the backend existence checks (Go select picks randomly among ready cases) is decided on a Promela model checked exhaustively by Spin for 2-4 digests, and bound to the code by replaying EVERY complete model path (one trail per path) against the real functions with gates at the hooks, comparing the implementation's answers (25 repetitions where the model says the choice is nondeterministic) with what the model allows.",
+        note="Trail replay uses short settling waits for the two model events that have no hook (worker wg.Done, helper close); a mismatch there is reported as BROKEN-HARNESS, never as a violation.",
+        technique="exhaustive input-shape enumeration through the real handlers + Spin model checking with all trails replayed against the implementation",
+        design_ref="DESIGN.md 2.6, 3 (C06)"),
     "C10": dict(
         category="exploration", engine="E4 grid + E1 vsched + E2 seqx",
         text="Bounded-exhaustive enumeration of FindMissingBlobs request lists through the real gRPC handler (lengths 0..45; every index for single-missing, single-present, size-mismatch and empty-digest lists; all present/absent patterns in windows across the internal batch size of 20; duplicates), with a scriptable backend all 5^k assignments of {local, backend only, absent, too large for max_proxy_blob_size, other size in backend} at the head and across the batch boundary; every schedule (bounded preemptions) of a 25-digest call against two concurrent uploads; and FindMissing as an operation in the explicit-state search. Oracle: response == requested digests the model says absent, same order, duplicates kept.",
@@ -376,6 +423,14 @@ def write_manifest():
             "add_only": True,
         },
         "engines": [
+            {"name": "E5 spin", "path": "models/findmissing.pml", "serves_properties": ["C06", "C10"],
+             "kind_free_text": "Promela model of the fail-fast backend join, checked by Spin; every trail replayed against the implementation (lib/e5.py, vf_e5_test.go)"},
+            {"name": "E2 seqx", "path": "go/inj/cache/disk/vf_e2lru_test.go", "serves_properties": ["C03", "C04", "C05", "C15", "C17", "C12", "C10"],
+             "kind_free_text": "explicit-state BFS over operation sequences on the real SizedLRU / disk cache with canonical state hashing"},
+            {"name": "E3 faultx", "path": "go/inj/cache/disk/vf_c08_test.go", "serves_properties": ["C08", "C12", "C04"],
+             "kind_free_text": "crash-point / torn-write and backend-fault enumeration on the real code"},
+            {"name": "E4 grid", "path": "go/inj/verifdrv/grid", "serves_properties": ["C01", "C02", "C06", "C09", "C10", "C11", "C13", "C14", "C15", "C16", "C18", "C19", "C20"],
+             "kind_free_text": "exhaustive finite grids through the real HTTP/gRPC entry points and start-up code"},
             {"name": "E1 vsched", "path": "go/vsched", "serves_properties": ["C07", "C03", "C04", "C10", "C17"],
              "kind_free_text": "controlled cooperative scheduler + stateless DFS explorer with preemption bound over the real disk cache"},
         ],
